@@ -33,7 +33,6 @@ obligation and searches the implementation for a failing input.
 """
 import ast
 import importlib
-import json
 import os
 import pkgutil
 import sys
@@ -537,7 +536,6 @@ def translate(repo, extra_classes=()):
         raise Untranslatable("class %s not found" % ROOT)
     rootnode, rootmeths = classes_root[ROOT]
     first, second = {}, {}
-    order_first, order_second = [], []
     regs = []
     for node in ast.walk(tree):
         if isinstance(node, (ast.FunctionDef, ast.ClassDef)):
@@ -609,7 +607,6 @@ def translate(repo, extra_classes=()):
     for c in extra:
         if not issubclass(c, root_cls):
             raise Untranslatable("extra class %s is not a LinearOperator" % c.__name__)
-    n_lib = len(lib)
     lib = lib + extra
     names = [c.__name__ for c in lib]
     if len(set(names)) != len(names):
